@@ -244,3 +244,55 @@ func H_C09_NewTx() {
 		h_c09_newtx(110)
 	}
 }
+
+// C09: block decoding (header + transaction list, the non-hashing path BuildTxListExt(false)): never crashes or
+// allocates out of proportion; on success the transactions tile the bytes after the count exactly and the block
+// weight equals the BIP141 definition.
+func H_C09_Block() {
+	zzverif.LoopBound("btc.NewTx", 1)
+	zzverif.LoopBound("btc.NewTxIn", 2)
+	zzverif.LoopBound("btc.NewTxOut", 2)
+	zzverif.LoopBound("(*btc.Block).BuildTxListExt", 2)
+	zzverif.AllocLimit(4096)
+	maxL := 104
+	if zzverif.Tier() == 1 {
+		maxL = 150
+	}
+	zzverif.Bound("block", "every byte string of length 0..104 (150 thorough); at most 2 transactions of <=1 input / <=1 output with scripts <=2 bytes (larger shapes cut; the count itself is unconstrained)")
+	L := zzverif.Len("L", 0, maxL)
+	data := zzverif.Bytes("data", L)
+	var bl *Block
+	var er error
+	if zzverif.Panics(func() { bl, er = NewBlock(data) }) {
+		zzverif.Assert("C09.block.newblock-nopanic", false)
+	}
+	if er != nil || bl == nil {
+		zzverif.Reach("refused")
+		return
+	}
+	if L <= 80 {
+		zzverif.Reach("header-only")
+		return
+	}
+	if zzverif.Panics(func() { er = bl.BuildTxListExt(false) }) {
+		zzverif.Assert("C09.block.txlist-nopanic", false)
+	}
+	if er != nil {
+		zzverif.Reach("bad-txlist")
+		return
+	}
+	zzverif.Reach("decoded")
+	zzverif.Assert("C09.block.count", bl.TxCount == len(bl.Txs) && bl.TxCount > 0)
+	off := bl.TxOffset
+	weight := uint(4 * (80 + VLenSize(uint64(bl.TxCount))))
+	for _, tx := range bl.Txs {
+		zzverif.Assert("C09.block.tx-nonnil", tx != nil)
+		zzverif.Assert("C09.block.tx-raw", off+len(tx.Raw) <= L && bytes.Equal(tx.Raw, data[off:off+len(tx.Raw)]) && bytes.Equal(tx.SerializeNew(), tx.Raw))
+		stripped := len(tx.Serialize())
+		weight += uint(3*stripped + len(tx.Raw))
+		off += len(tx.Raw)
+	}
+	zzverif.Assert("C09.block.weight", bl.BlockWeight == weight)
+	cnt, n := VLen(data[80:])
+	zzverif.Assert("C09.block.offsets", n > 0 && cnt == bl.TxCount && bl.TxOffset == 80+n)
+}
